@@ -178,6 +178,28 @@ def check_types_merge(spec, ctx):
     ctx.true("merge_leaves_operands", json.dumps(a, sort_keys=True) == a0 and json.dumps(b, sort_keys=True) == b0)
     if set(a) & set(b):
         ctx.label("shared_keys")
+    # the same union through the intervals' own merge (export_qualifiers with a parent dictionary), for two SIBLINGS that are
+    # handed the same parent mapping one after the other: each result is the key-wise union of the child's own export and the
+    # parent's values, the second does not see the first, and the caller's mapping is left as it was
+    from inscripta.biocantor.gene.feature import FeatureInterval
+    from inscripta.biocantor.location.strand import Strand
+
+    def feat(i):
+        return FeatureInterval([2 + i], [9 + i], Strand.PLUS, qualifiers={k: list(v) for k, v in a.items()}, feature_id="fid%d" % i, feature_name="fname%d" % i)
+
+    # the parent mapping also carries keys that the child adds on export
+    parent = {k: set(v) for k, v in b.items()}
+    parent.update({"feature_id": {"parent_fid"}, "feature_name": {"parent_fname"}})
+    p0 = {k: set(v) for k, v in parent.items()}
+    r1 = feat(1).export_qualifiers(parent)
+    r2 = feat(2).export_qualifiers(parent)
+    for i, r in ((1, r1), (2, r2)):
+        own = feat(i).export_qualifiers()
+        exp_r = {k: set(v) for k, v in own.items()}
+        for k, v in p0.items():
+            exp_r.setdefault(k, set()).update(v)
+        ctx.eq("sibling_merge_is_union[%d]" % i, {k: sorted(v) for k, v in r.items()}, {k: sorted(v) for k, v in exp_r.items()})
+    ctx.eq("sibling_merge_leaves_parent_mapping", {k: sorted(v) for k, v in parent.items()}, {k: sorted(v) for k, v in p0.items()})
 
 
 # ------------------------------------------------------------------------------------ GenBank record permutations
